@@ -388,3 +388,72 @@ pub fn sched(input: &str, out: &mut impl std::io::Write) {
     writeln!(out, "END").unwrap();
     set_observer(None);
 }
+
+/// `par`: two lookups of a stored key that overlap in real time: thread A is held inside the
+/// value's `Clone` (i.e. inside the cache, holding whatever guard the engine holds while it
+/// clones), thread B looks the same key up meanwhile. Input: lines P / A / B.
+pub fn par(input: &str, out: &mut impl std::io::Write) {
+    use std::sync::atomic::Ordering::SeqCst;
+    let mut a_op: Vec<String> = vec![];
+    let mut b_op: Vec<String> = vec![];
+    for line in input.lines() {
+        let t: Vec<&str> = line.split_whitespace().collect();
+        if t.is_empty() {
+            continue;
+        }
+        match t[0] {
+            "PCASE" => writeln!(out, "{}", line.replacen("PCASE", "CCASE", 1)).unwrap(),
+            "P" => {
+                let r = run_op(&t[1..]);
+                writeln!(out, "P {} => {}", t[1..].join(" "), r).unwrap();
+            }
+            "A" => a_op = t[1..].iter().map(|s| s.to_string()).collect(),
+            "B" => b_op = t[1..].iter().map(|s| s.to_string()).collect(),
+            _ => {}
+        }
+    }
+    rt::RELEASE_CLONES.store(false, SeqCst);
+    rt::CLONES_HELD.store(0, SeqCst);
+    let done_a = Arc::new(Mutex::new(None::<String>));
+    let done_b = Arc::new(Mutex::new(None::<String>));
+    let (da, ao) = (done_a.clone(), a_op.clone());
+    let ha = std::thread::spawn(move || {
+        rt::HOLD_CLONES.with(|h| h.set(true));
+        let toks: Vec<&str> = ao.iter().map(|s| s.as_str()).collect();
+        let r = run_op(&toks);
+        *da.lock().unwrap() = Some(r);
+    });
+    let t0 = Instant::now();
+    while rt::CLONES_HELD.load(SeqCst) == 0 && t0.elapsed() < Duration::from_millis(500) && done_a.lock().unwrap().is_none() {
+        std::thread::sleep(Duration::from_millis(1));
+    }
+    let held = rt::CLONES_HELD.load(SeqCst);
+    let (db, bo) = (done_b.clone(), b_op.clone());
+    let hb = std::thread::spawn(move || {
+        let toks: Vec<&str> = bo.iter().map(|s| s.as_str()).collect();
+        let r = run_op(&toks);
+        *db.lock().unwrap() = Some(r);
+    });
+    let t1 = Instant::now();
+    while done_b.lock().unwrap().is_none() && t1.elapsed() < Duration::from_millis(150) {
+        std::thread::sleep(Duration::from_millis(1));
+    }
+    let b_early = done_b.lock().unwrap().is_some();
+    rt::RELEASE_CLONES.store(true, SeqCst);
+    let dl = Instant::now() + Duration::from_secs(4);
+    while (done_a.lock().unwrap().is_none() || done_b.lock().unwrap().is_none()) && Instant::now() < dl {
+        std::thread::sleep(Duration::from_millis(2));
+    }
+    if done_a.lock().unwrap().is_none() || done_b.lock().unwrap().is_none() {
+        writeln!(out, "SCHED reached={} b_blocked=1 deadlock=1 A:overlapping-lookups B:never-returned", (held > 0) as u8).unwrap();
+        writeln!(out, "END").unwrap();
+        out.flush().unwrap();
+        std::process::exit(0);
+    }
+    ha.join().ok();
+    hb.join().ok();
+    writeln!(out, "SCHED reached={} b_blocked={} deadlock=0 overlap=1", (held > 0) as u8, (!b_early) as u8).unwrap();
+    writeln!(out, "RA {}", done_a.lock().unwrap().clone().unwrap()).unwrap();
+    writeln!(out, "RB {}", done_b.lock().unwrap().clone().unwrap()).unwrap();
+    writeln!(out, "END").unwrap();
+}
